@@ -91,6 +91,9 @@ func (ex *Exec) callStatic(fr *Frame, st *State, fn *ssa.Function, args []Val, b
 		return ex.inline(fr, st, fn, args, bindings, pos)
 	}
 	if fc := ex.ld.contractFor(fn); fc != nil && fn != ex.top && !fc.Inline {
+		if fc.Trusted {
+			ex.trustedUsed["assumed contract (specs/): "+fn.String()] = true
+		}
 		return ex.callContract(fr, st, fn, fc, args, pos)
 	}
 	if len(fn.Blocks) > 0 && (inRepo(fn) || inlineExternal[name]) && fr.depth < ex.opts.InlineMax && !ex.onStack(fr, fn) {
@@ -246,6 +249,26 @@ func (ex *Exec) abstractCall(fr *Frame, st *State, c *ssa.CallCommon, recv Val, 
 		ex.havocReachable(st, a, 0)
 	}
 	rec.Results = ex.freshResults(st, c.Signature(), "ret_"+sanitize(key))
+	if c.IsInvoke() {
+		if fc := ex.ld.ifaceContract(c.Value.Type(), c.Method.Name()); fc != nil {
+			env := &Env{ex: ex, st: st, old: rec.Pre, vars: map[string]Val{}, results: rec.Results, pkg: c.Method.Pkg()}
+			sig := c.Signature()
+			for i := 0; i < sig.Params().Len() && i < len(args); i++ {
+				if n := sig.Params().At(i).Name(); n != "" && n != "_" {
+					env.vars[n] = args[i]
+				}
+				env.vars[fmt.Sprintf("arg%d", i)] = args[i]
+			}
+			for i := 0; i < sig.Results().Len(); i++ {
+				env.resultNames = append(env.resultNames, sig.Results().At(i).Name())
+			}
+			for _, e := range fc.Ensures {
+				ex.assume(st, ex.evalBool(env, e.E))
+			}
+			ex.trustedUsed["interface contract: "+fc.Key] = true
+		}
+	}
+	rec.Post = st.clone()
 	return rec.Results
 }
 
@@ -269,7 +292,9 @@ func pkgOf(fn *ssa.Function) *types.Package {
 }
 
 func (ex *Exec) callContract(fr *Frame, st *State, fn *ssa.Function, fc *FuncContract, args []Val, pos token.Pos) []Val {
-	ex.trustedUsed["contract:"+fnKey(fn)] = true
+	if !fc.Trusted {
+		ex.trustedUsed["contract:"+fnKey(fn)] = true
+	}
 	env := ex.calleeEnv(fn, args, st, st)
 	for _, r := range fc.Requires {
 		g := ex.evalBool(env, r.E)
@@ -292,6 +317,7 @@ func (ex *Exec) callContract(fr *Frame, st *State, fn *ssa.Function, fc *FuncCon
 	for _, e := range fc.Ensures {
 		ex.assume(st, ex.evalBool(post, e.E))
 	}
+	ex.callLog = append(ex.callLog, &CallRec{Guard: pre.PC(), Key: fn.Name(), Args: args, Results: results, Pre: pre, Post: st.clone(), Seq: len(ex.callLog), Pos: pos})
 	return results
 }
 
